@@ -586,6 +586,7 @@ func c06Step(r *eng.Run, wr *WRun, tr *msgTrack, i int) {
 		r.Probe("grow_path")
 	}
 	// 2. Frame well-formedness, frame by frame.
+	framesBefore := tr.frames // frames of the open message sent by earlier steps
 	for _, f := range newFrames {
 		first := tr.frames == 0
 		wantOp := byte(ref.OpCont)
@@ -632,7 +633,7 @@ func c06Step(r *eng.Run, wr *WRun, tr *msgTrack, i int) {
 		emittedFinal := len(newFrames) > 0 && newFrames[len(newFrames)-1].Fin
 		pending := len(wr.Accepted) - tr.start
 		switch {
-		case !tr.sinceFlush && tr.frames == 0:
+		case !tr.sinceFlush && framesBefore == 0:
 			if len(newFrames) != 0 {
 				r.Failf("flush_of_nothing_emits", "step %d: Flush with nothing written since the last Flush emitted %d frame(s)", i, len(newFrames))
 			}
